@@ -217,11 +217,12 @@ type sendMonitor struct {
 	votes      map[[3]uint64]uint64          // (shard, replica, term) -> candidate granted
 	maxAck     map[nodeKey]uint64            // highest acknowledged index (current-term acks)
 	counts     map[string]int64
+	asked      map[[4]uint64]bool            // (shard, candidate, addressee, prevote?) of every vote request that left a host
 }
 
 func newSendMonitor(res *Result, c *Cluster) *sendMonitor {
 	m := &sendMonitor{res: res, byAddr: map[string]*Host{}, maxTerm: map[nodeKey]uint64{}, votes: map[[3]uint64]uint64{},
-		maxAck: map[nodeKey]uint64{}, counts: map[string]int64{}}
+		maxAck: map[nodeKey]uint64{}, counts: map[string]int64{}, asked: map[[4]uint64]bool{}}
 	for _, h := range c.Hosts {
 		m.byAddr[h.Addr] = h
 	}
@@ -236,6 +237,24 @@ func (sm *sendMonitor) onSend(from, to string, m pb.Message) {
 	k := nodeKey{m.ShardID, m.From}
 	sm.mu.Lock()
 	sm.counts[m.Type.String()]++
+	// a vote (or pre-vote) response answers a request that was addressed to the responding
+	// replica: a replica started on the host of a removed one must not answer for it
+	switch m.Type {
+	case pb.RequestVote:
+		sm.asked[[4]uint64{m.ShardID, m.From, m.To, 0}] = true
+	case pb.RequestPreVote:
+		sm.asked[[4]uint64{m.ShardID, m.From, m.To, 1}] = true
+	case pb.RequestVoteResp, pb.RequestPreVoteResp:
+		pre := uint64(0)
+		if m.Type == pb.RequestPreVoteResp {
+			pre = 1
+		}
+		if !sm.asked[[4]uint64{m.ShardID, m.To, m.From, pre}] {
+			sm.mu.Unlock()
+			sm.res.violate("vote-response-without-request", "replica %d sends %s (reject %v, term %d) to %d, which never sent such a request to replica %d", m.From, m.Type, m.Reject, m.Term, m.To, m.From)
+			sm.mu.Lock()
+		}
+	}
 	sm.mu.Unlock()
 	// C18 at the NodeHost level: the non-voting member / the witness never campaigns and
 	// never acts as a leader; a witness is sent entry metadata and membership changes only
